@@ -106,6 +106,10 @@ public:
 				} else throw std::runtime_error("mem option " + t[i]);
 			}
 			memIdx[t[1]] = mems.size() - 1;
+		} else if (op == "regb") {     // regb NAME SRC [en C] : register that may be retimed backwards (into a memory's read latency)
+			std::unique_ptr<EnableScope> es; if (t.size() > 4 && t[3] == "en") es = std::make_unique<EnableScope>(asB(t[4]));
+			UInt x = reg(asU(t[2]), {.allowRetimingBackward = true});
+			setU(t[1], x);
 		} else if (op == "memwrite") { // memwrite MEM ADDR DATA [COND]
 			auto &m = *mems.at(memIdx.at(t[1]));
 			if (t.size() > 4) { IF (asB(t[4])) m[asU(t[2])] = asU(t[3]); }
